@@ -81,25 +81,25 @@ Proof. vm_compute. reflexivity. Qed.
 
 (** * CalcOrder *)
 (* an order is only assigned to a seal that is under its target, with difficulty >= 2, and it then carries >= 1 bit *)
-Theorem calc_order_accepts_only_valid_seals : forall h ie o, calc_order h = CoOk ie o -> h_num h <> 0 ->
+Theorem calc_order_accepts_only_valid_seals : forall h ie o, calc_order h = CoOk ie o -> num64 h <> 0 ->
   ie = intrinsic_entropy (h_pow h) /\ 0 < h_pow h <= big2e256 / h_diff h /\ 2 <= h_diff h /\
   (o = ctx_prime \/ o = ctx_region \/ o = ctx_zone).
 Proof. exact calc_order_ok_inv. Qed.
 Print Assumptions calc_order_accepts_only_valid_seals.
 
-Theorem calc_order_entropy_at_least_one_bit : forall h ie o, calc_order h = CoOk ie o -> h_num h <> 0 -> 2 ^ mant_bits <= ie.
+Theorem calc_order_entropy_at_least_one_bit : forall h ie o, calc_order h = CoOk ie o -> num64 h <> 0 -> 2 ^ mant_bits <= ie.
 Proof. exact calc_order_entropy_pos. Qed.
 Print Assumptions calc_order_entropy_at_least_one_bit.
 
 (* the hierarchical order is a deterministic function of the seal and the recorded entropy deltas *)
 Theorem calc_order_deterministic : forall h1 h2,
-  h_num h1 = h_num h2 -> h_diff h1 = h_diff h2 -> h_pow h1 = h_pow h2 ->
+  num64 h1 = num64 h2 -> h_diff h1 = h_diff h2 -> h_pow h1 = h_pow h2 ->
   h_pd_r h1 = h_pd_r h2 -> h_pd_z h1 = h_pd_z h2 -> h_expansion h1 = h_expansion h2 ->
   calc_order h1 = calc_order h2.
 Proof. exact calc_order_inputs. Qed.
 Print Assumptions calc_order_deterministic.
 
-Theorem calc_order_prime_needs_both_thresholds : forall h ie, calc_order h = CoOk ie ctx_prime -> h_num h <> 0 ->
+Theorem calc_order_prime_needs_both_thresholds : forall h ie, calc_order h = CoOk ie ctx_prime -> num64 h <> 0 ->
   let zt := intrinsic_entropy (crop_hash (big2e256 / h_diff h)) in
   let pet := prime_entropy_target (h_expansion h) in
   zt + bits_to_bigbits pet < ie /\ pet * zt / big2 < h_pd_r h + h_pd_z h + ie.
@@ -220,7 +220,7 @@ Print Assumptions parent_entropy_is_accumulated.
 (* child.ParentEntropy = parent.ParentEntropy + intrinsic(parent) + workshares(parent) for a zone-order parent; the
    deltas accumulate the same way and restart at zero after a dominant-order parent *)
 Theorem parent_entropy_accumulates_stepwise : forall e p c ie, valid_child e p c = true -> h_genesis p = false ->
-  calc_order p = CoOk ie ctx_zone -> h_num p <> 0 ->
+  calc_order p = CoOk ie ctx_zone -> num64 p <> 0 ->
   h_pe_z c = h_pe_z p + intrinsic_entropy (h_pow p) + h_ws p /\
   h_pd_z c = h_pd_z p + intrinsic_entropy (h_pow p) + h_ws p /\
   h_pud_z c = h_pud_z p + h_uncled p.
@@ -261,6 +261,31 @@ Theorem entropy_strictly_increases_along_chains : forall l p,
 Proof. exact (fun l p V Z => conj (chain_strictly_sorted l p V Z) (chain_sum l p V Z)). Qed.
 Print Assumptions entropy_strictly_increases_along_chains.
 
+(** * the number rule is exact on unbounded integers (header numbers are decoded from the wire without a width limit) *)
+(* a header whose number differs from parent+1 is rejected — in particular every number CONGRUENT to parent+1 modulo
+   2^64 (what NumberU64 would compare), 2^128, 2^256 or any other width *)
+Theorem number_rule_exact_on_unbounded_integers : forall e p c m k, 0 < m -> k <> 0 ->
+  h_num c = (if h_genesis p then 0 else h_num p) + 1 + k * m -> valid_child e p c = false.
+Proof. exact congruent_number_rejected. Qed.
+Print Assumptions number_rule_exact_on_unbounded_integers.
+
+(** * histories: CalcOrder / TotalLogEntropy / DeltaLogEntropy / UncledDeltaLogEntropy over the shared memo *)
+(* for EVERY history of calls of the four functions, evictions and restarts, in every node context, every call
+   returns the function of the header alone (no dependence on earlier calls) — or two headers of the history share a
+   hash and differ in their order (collision) *)
+Theorem entropy_functions_history_independent : forall ctx ops,
+  hist_run ctx [] ops = map (hist_uncached ctx) ops \/ hist_collision ops.
+Proof. exact hist_sound. Qed.
+Print Assumptions entropy_functions_history_independent.
+
+(* stable across calls, caches and restarts: the same function on the same header returns the same value at any two
+   positions of any history *)
+Theorem entropy_functions_stable_across_history : forall ctx ops i j f h,
+  nth_error ops i = Some (HCall f h) -> nth_error ops j = Some (HCall f h) ->
+  nth_error (hist_run ctx [] ops) i = nth_error (hist_run ctx [] ops) j \/ hist_collision ops.
+Proof. exact hist_stable. Qed.
+Print Assumptions entropy_functions_stable_across_history.
+
 (** * non-vacuity: a concrete accepted chain of three links observed on the real code (harness chain case 4711) *)
 Definition ex_p : header := mkH 15756211122218741455 false 259201 196 1700020908 4214139 24087952227098138373633914913638497707840284485391274743742656544257550 0 769901847074247339142 757181550546886751787 1173159083484976602589 159156489641489504623 256383292402084813129 656540159741179334 906007504646785808 59396713011437832861 2 22367460 0 12000000 0 0 7793917193664559595 11.
 Definition ex_c1 : header := mkH 16778651588042410861 false 259202 197 1700020913 4198043 14176087422853201873119852669490256198431017178224220461167164017626882 0 992429421628473065 1043470323858477466 1582616325735433005369 588786790411 665840534652541215909 925420380 60302720516084618669 4767842668847 2 12500048 10019679 12500048 4134458 37619393 7793917193664559595 11.
@@ -298,3 +323,23 @@ Example difficulty_nonvacuous :
   retarget 5 1000 1000000 1700000004 1700000000 = 1000131 /\ retarget 5 1000 1000000 1700000100 1700000000 = 987465 /\
   retarget 5 1000 1010 1700000100 1700000000 = 1004 /\ retarget 5 1000 1000 1700001000 1700000000 = 1000.
 Proof. vm_compute. repeat split; reflexivity. Qed.
+
+(* the child of the observed chain with its number moved by 2^64 / 2^128: same low 64 bits, rejected *)
+Definition with_num (c : header) (n : Z) : header :=
+  mkH (h_hash c) (h_genesis c) n (h_num_prime c) (h_time c) (h_diff c) (h_pow c) (h_ws c) (h_pe_p c) (h_pe_r c) (h_pe_z c)
+      (h_pd_r c) (h_pd_z c) (h_pud_r c) (h_pud_z c) (h_uncled c) (h_expansion c) (h_gas_limit c) (h_gas_used c)
+      (h_state_limit c) (h_state_used c) (h_base_fee c) (h_pt_hash c) (h_pt_num c).
+Example wide_number_nonvacuous :
+  valid_child ex_e1 ex_p (with_num ex_c1 (h_num ex_c1)) = true /\
+  valid_child ex_e1 ex_p (with_num ex_c1 (h_num ex_c1 + 2 ^ 64)) = false /\
+  valid_child ex_e1 ex_p (with_num ex_c1 (h_num ex_c1 + 3 * 2 ^ 128)) = false /\
+  num64 (with_num ex_c1 (h_num ex_c1 + 2 ^ 64)) = num64 ex_c1.
+Proof. vm_compute. repeat split; reflexivity. Qed.
+
+(* a history mixing the four functions on two blocks with a hit, an eviction and a restart *)
+Example history_nonvacuous :
+  let ops := [HCall FTotal ex_c1; HCall FDelta ex_c1; HCall FDelta ex_c1; HCall FTotal ex_c1; HCall FOrder ex_c1;
+              HEvict (h_hash ex_c1); HCall FUDelta ex_c1; HPurge; HCall FTotal ex_c2; HCall FDelta ex_c1] in
+  hist_run ctx_zone [] ops = map (hist_uncached ctx_zone) ops /\
+  nth_error (hist_run ctx_zone [] ops) 0 = Some (Some (RZ 2006182602391094194221)).
+Proof. vm_compute. split; reflexivity. Qed.
